@@ -53,7 +53,14 @@ func ruleFilterSubnetAnswers(c *Ctx, rule string) {
 			c.undecided(rule, fn, "allocateDuringFilter", nil, "expected one call")
 			return
 		}
-		sub := al[0].Common().Args[4] // keyObj, reserve, isPoolSizeDefined, reserveSubnet (receiver is arg 0)
+		sub := argNamed(al[0], "reserveSubnet", 3)
+		if sub == nil {
+			sub = argNamed(al[0], "subnet", 3)
+		}
+		if sub == nil {
+			c.undecided(rule, fn, "subnet argument of allocateDuringFilter", al[0], "the argument naming the subnet of the allocation was not found")
+			return
+		}
 		ets := errTests(al[0])
 		ok := len(ets) > 0
 		why := ""
